@@ -328,7 +328,7 @@ PROPS["C16"] = {
 PROPS["C17"] = {
     "pkg": "c17",
     "variants": [
-        {"name": "bubble", "synctest": True, "kinds": ["c17.once-bubble", "c17.sema-bubble"]},
+        {"name": "bubble", "synctest": True, "kinds": ["c17.once-bubble", "c17.sema-bubble", "c17.sema-burst", "c17.hot-key", "c17.typed"]},
         {"name": "stress", "race": True, "kinds": ["c17.once-stress", "c17.sema-stress"], "shards": {"thorough": 8}},
     ],
     "technique": "generated concurrent programs: (1) harness-gated scripts inside a testing/synctest bubble with exact quiescence and virtual time, (2) barrier-start real-thread stress under the race detector; call-count, result-identity, progress and holder-count invariants",
@@ -416,6 +416,33 @@ PROPS["C20"] = {
     "quick": {"scale": 1, "shards": 1, "timeout": 600},
     "thorough": {"scale": 40, "shards": 8, "timeout": 2400},
 }
+
+# ---------------------------------------------------------------------------
+# Additions of sensitivity rounds 5-6 (appended to the descriptions above).
+_ADD = {
+    "C01": (" A reused-receiver kind feeds 2-6 texts to ONE receiver of every type with Unmarshal methods (Record with caller-pre-sized Names, HostPort, Prefix, URL text/JSON, Duration).",
+            " Reuse: non-trivial = at least two accepted hosts lines with different name counts on one Record."),
+    "C07": (" A reuse kind parses 2-7 lines into one Record (optionally pre-sized by the caller), compares every call with the reference and keeps a by-value copy after each call; the kept copies must still read as the records of their own lines at the end.",
+            " Reuse: non-trivial = kept records with at least two different name counts."),
+    "C08": (" A readers kind builds a storage and then runs the whole model comparison (ByName in three spellings, ByAddr, both Range functions) from 2-8 goroutines at once, 1-20 rounds; a conc variant repeats the sequential oracles from 8 goroutines under the race detector.",
+            " Readers: non-trivial = at least three distinct names in a storage read concurrently."),
+    "C09": (" A numeric-corner kind draws the three limits from {0, 2^31-1 .. 2^32+7, 2^33, 2^63-1, 2^63, max-1, max} and uses values that are slices of one shared 1 GiB buffer, so the accounted total crosses 2^32 bytes with a handful of entries; a conc variant runs the histories from 8 goroutines on separate caches under the race detector.",
+            " Huge: non-trivial = accounted total above 2^32 bytes at some point."),
+    "C10": (" In a quarter of the programs one or two further, independent cache objects of the same configuration run the same program at the same time (objects must not share mutable state).", ""),
+    "C11": (" Set histories are instantiated for int, string, float64 (corner values incl. both infinities), a named string type and a narrow unsigned type; a float kind checks SortedSliceSet[float32/float64] with -0/+0 against a cmp.Compare model (NaN is outside the domain: the tree under test does not treat it as a value either). A conc variant runs the histories from 8 goroutines on separate objects under the race detector.", ""),
+    "C13": (" A long-operand kind draws haystacks around every power of two up to 257 bytes and needles of any length derived from a window and then broken at one (usually late) position or extended past the end.",
+            " Long: non-trivial = haystack above 32 bytes with a needle above 8 bytes."),
+    "C15": (" A conc variant runs the read and write histories from 8 goroutines on separate objects under the race detector.", ""),
+    "C16": (" The cause below the error is a generated chain (nested *url.Error of another request, fmt.Errorf wrapping, errors.Join, typed-nil *url.Error): every *url.Error other than the top-level one must stay untouched.", ""),
+    "C17": (" Thorough tier only: 2^32 + 2^20 Get calls for one key of one OnceConstructor (constructor count stays 1, every call returns the first result), crossing every 32-bit boundary.", ""),
+    "C18": (" The context given to Start may be cancelled while the worker runs (start-up idiom) and refreshers may return their context's error: only Shutdown stops the loop, and every error still reaches the handler once.", ""),
+    "C19": (" A re-entrant kind gives a record an attribute value whose LogValue/String/Error/MarshalText logs another record through a handler of the same tree (optionally nested twice, inside a group): Handle must return and every record, inner and outer, must produce exactly its line.", ""),
+    "C20": (" Handlers may also hijack the connection (through http.Hijacker or a response controller) and write to it directly, or flush through a response controller; each client must receive exactly its own hijacked bytes / flush count.", ""),
+}
+for _pid, (_lt, _rule) in _ADD.items():
+    PROPS[_pid]["level_text"] += _lt
+    PROPS[_pid]["rule"] += _rule
+
 
 ALL_IDS = ["C%02d" % i for i in range(1, 21)]
 NOT_APPLICABLE = [
